@@ -86,7 +86,7 @@ class Place:
             if k == "deref":
                 pr.append(("deref",))
             elif k == "field":
-                pr.append(("field", e["i"], e.get("name"), Ty(e["ty"])))
+                pr.append(("field", e["i"], e.get("name"), Ty(e["ty"]), e.get("parent")))
             elif k == "index":
                 pr.append(("index", e["local"]))
             elif k == "constindex":
